@@ -42,14 +42,20 @@ theorem nextHeader_take_conv (hB : 0 < P.B) (file : List Nat) (n : Nat) :
         by_cases ht : trueUp P (off + 1) - (off + 1) > P.H
         · rw [if_pos ht] at h; cases h
         · rw [if_neg ht] at h
-          -- the recursive read starts at or after `off + 1`
-          have htu : off + 1 ≤ trueUp P (off + 1) := trueUp_ge hB (off + 1)
-          obtain ⟨ih1, ih2⟩ := ih _ r h hn
-          have hoff : off < n := by omega
-          rw [get_take file n off hoff, hx]
-          simp only
-          rw [if_pos h0, if_neg ht]
-          exact ⟨ih1, by omega⟩
+          cases hp : padZero file (off + 1) (trueUp P (off + 1)) with
+          | false => rw [hp] at h; simp only [Bool.not_false, if_true] at h; cases h
+          | true =>
+            rw [hp] at h
+            simp only [Bool.not_true, Bool.false_eq_true, if_false] at h
+            -- the recursive read starts at or after `off + 1`
+            have htu : off + 1 ≤ trueUp P (off + 1) := trueUp_ge hB (off + 1)
+            obtain ⟨ih1, ih2⟩ := ih _ r h hn
+            have hoff : off < n := by omega
+            rw [get_take file n off hoff, hx]
+            simp only
+            rw [if_pos h0, if_neg ht, padZero_take file n (off + 1) _ (by omega), hp]
+            simp only [Bool.not_true, Bool.false_eq_true, if_false]
+            exact ⟨ih1, by omega⟩
       · rw [if_neg h0] at h
         by_cases h1 : hsz > P.H
         · rw [if_pos h1] at h; cases h
@@ -126,6 +132,11 @@ theorem nextBatch_take_conv (hB : 0 < P.B) (file : List Nat) (n fuel off : Nat) 
         by_cases ht : trueUp P off' - off' > P.H
         · rw [if_pos ht] at h; cases h
         · rw [if_neg ht] at h
+          cases hp : padZero file off' (trueUp P off') with
+          | false => rw [hp] at h; simp only [Bool.not_false, if_true] at h; cases h
+          | true =>
+          rw [hp] at h
+          simp only [Bool.not_true, Bool.false_eq_true, if_false] at h
           cases hf2 : nextFrame P file fuel (trueUp P off') with
           | eof => rw [hf2] at h; cases h
           | err => rw [hf2] at h; cases h
@@ -142,8 +153,9 @@ theorem nextBatch_take_conv (hB : 0 < P.B) (file : List Nat) (n fuel off : Nat) 
               obtain ⟨hc1, _⟩ := nextFrame_take_conv hB file n fuel off (hd, p, off') hf (by simp only at hlt2 ⊢; omega)
               rw [hc1]
               simp only
-              rw [if_neg hw, if_pos h1, if_neg ht, hc2]
-              simp only
+              rw [if_neg hw, if_pos h1, if_neg ht,
+                padZero_take file n off' _ (by simp only at hlt2; omega), hp, hc2]
+              simp only [Bool.not_true, Bool.false_eq_true, if_false]
               rw [if_pos hs]
             · rw [if_neg hs] at h; cases h
       · rw [if_neg h1] at h; cases h
